@@ -31,9 +31,7 @@ def registry(n=None, init=False):
                      ensures={'w': 'result == spec.aead2.kw_w(cipher.g_key, plaintext)', 'len': 'len(result) == len(plaintext)'},
                      modifies=[], result='bytes', assumed=note))
     reg.add(Contract(W + 'W_inverse', params={'cipher': ECB, 'ciphertext': data}, requires=['len(ciphertext) % 8 == 0', 'len(ciphertext) >= 24'], raises={},
-                     ensures=dict({'w_inv': 'result == spec.aead2.kw_w_inv(cipher.g_key, ciphertext)', 'len': 'len(result) == len(ciphertext)'},
-                                  # W(W^-1(C)) == C: with E(D(x)) == x, what makes unseal(seal(P)) == P (C02)
-                                  **({'inverse': 'spec.aead2.kw_w(cipher.g_key, result[0:%d]) == ciphertext' % (8 * n)} if n is not None else {})),
+                     ensures={'w_inv': 'result == spec.aead2.kw_w_inv(cipher.g_key, ciphertext)', 'len': 'len(result) == len(ciphertext)'},
                      modifies=[], result='bytes', assumed=note))
     for cls in (KW, KWP):
         reg.add(ClassContract(cls, fields={} if init else {'block_size': 'int', '_factory': FACTORY, '_cipher': ECB, '_done': 'bool'},
